@@ -197,18 +197,16 @@ example : ∃ fuel₀, ∀ fuel, fuel₀ ≤ fuel →
     compiler by text comparison of `drv_c01 emit` with `cproc-qbe`),
   * target semantics: `Qbe.runFunc`.
 
-  The MODEL and its tie cover declarations (with and without initialiser), assignment, compound
-  assignment, `++`/`--`, expression statements, blocks, `if`/`else`, `while`, `do`, `for`, `break`,
-  `continue`, `return`.  The THEOREM below covers the statements selected by `LowerMach2.frag`
-  (`InF2`), which grows stage by stage; see the comment at `InF2`. -/
-
-/-- The part of 𝔽₂ for which preservation is proved: bodies without loops — `;`, declarations with and
-    without initialiser, (compound) assignment, `++`/`--` (on non-`_Bool` objects: `Stmt.wt`), expression
-    statements, blocks, `if`, `if`-`else`, `return` anywhere (but not followed by code in the same
-    block: `Stmt.wt`). -/
-def InF2 (f : CSem2.Func) : Prop := LowerMach2.frag f.body = true
-
-instance (f : CSem2.Func) : Decidable (InF2 f) := by unfold InF2; exact inferInstance
+  𝔽₂ = functions over integer parameters whose body is built from: `;`, declarations of integer
+  block-scope objects with and without initialiser, assignment and compound assignment to variables,
+  `++`/`--` on variables, expression statements, compound statements, `if`, `if`-`else`, `while`, `do`,
+  `for` (any clause may be missing, the first may be a declaration), `break`, `continue`, `return`; the
+  expressions are those of 𝔽₁ over parameters and locals.  `CSem2.WT` (decidable) is what the parser
+  guarantees (typing, declaration before use) plus two restrictions of the MODEL: no statement follows a
+  `return`/`break`/`continue` in the same block (there cproc opens a block `dead.N` lazily, which
+  `Lower2` places differently), and `++`/`--` is not applied to a `_Bool` object.  The theorems hold
+  for ALL such functions: any size, any nesting of loops and branches, any number of variables (up to
+  the stack bound), all in-range arguments, any fuel of the C execution. -/
 
 /-- **Semantic preservation for 𝔽₂** (in any program that contains the emitted function and starts with
     an empty stack): if the C execution of the body on the arguments `ρ` reaches `return` with value `v`
@@ -216,7 +214,7 @@ instance (f : CSem2.Func) : Decidable (InF2 f) := by unfold InF2; exact inferIns
     returns a representation of `v` for every sufficiently large fuel — it does not get stuck, trap,
     touch memory outside its own slots, or produce output. -/
 theorem lower2_correct_in (cs : Bool) (startid : Nat) (f : CSem2.Func) (ρ : List Int) (v : Int)
-    (hwt : CSem2.WT f) (hin : InF2 f) (henv : EnvOK cs f.params ρ)
+    (hwt : CSem2.WT f) (henv : EnvOK cs f.params ρ)
     (hsmall : f.params.length + f.locals.length ≤ 1000000)
     (cfuel : Nat) (hev : CSem2.runC cs cfuel f ρ = some v) (p : Prog) (ext : Ext)
     (hfun : p.funcs[f.name]? = some (FuncInfo.of (Lower2.emitFunc cs startid f)))
@@ -228,46 +226,39 @@ theorem lower2_correct_in (cs : Bool) (startid : Nat) (f : CSem2.Func) (ρ : Lis
     split at hev
     · rename_i w h; cases hev; exact h
     · cases hev
-  exact LowerMach2.lower2_correct_prog cs startid f ρ v hwt hin henv hsmall cfuel hex p ext hfun hstack hsp
+  exact LowerMach2.lower2_correct_prog cs startid f ρ v hwt henv hsmall cfuel hex p ext hfun hstack hsp
 
-/-- **Semantic preservation for 𝔽₂.** -/
+/-- **Semantic preservation for 𝔽₂.**  `cs`: signedness of plain `char` on the target; `startid`:
+    value of `mkblock`'s counter before the function; `cfuel`: fuel of the C execution. -/
 theorem lower2_correct (cs : Bool) (startid : Nat) (f : CSem2.Func) (ρ : List Int) (v : Int)
-    (ext : Ext) (hwt : CSem2.WT f) (hin : InF2 f) (henv : EnvOK cs f.params ρ)
+    (ext : Ext) (hwt : CSem2.WT f) (henv : EnvOK cs f.params ρ)
     (hsmall : f.params.length + f.locals.length ≤ 1000000)
     (cfuel : Nat) (hev : CSem2.runC cs cfuel f ρ = some v) :
     ∃ fuel₀ r, RetRep f.ret v r ∧ ∀ fuel, fuel₀ ≤ fuel →
       runFunc (prog (Lower2.emitFunc cs startid f)) ext f.name (argsOf f.params ρ) fuel =
         ⟨#[], .ret (.scalar r)⟩ := by
-  refine lower2_correct_in cs startid f ρ v hwt hin henv hsmall cfuel hev _ ext
+  refine lower2_correct_in cs startid f ρ v hwt henv hsmall cfuel hev _ ext
     (prog_funcs (Lower2.emitFunc cs startid f)) ?_ ?_
   · rw [prog_initMem]
   · rw [prog_initMem]
 
 /-- `lower2_correct` for functions returning `int`, `unsigned`, `long`, …: the outcome is an equation. -/
 theorem lower2_correct_exact (cs : Bool) (startid : Nat) (f : CSem2.Func) (ρ : List Int) (v : Int)
-    (ext : Ext) (hwt : CSem2.WT f) (hin : InF2 f) (henv : EnvOK cs f.params ρ)
+    (ext : Ext) (hwt : CSem2.WT f) (henv : EnvOK cs f.params ρ)
     (hsmall : f.params.length + f.locals.length ≤ 1000000) (hret : 4 ≤ f.ret.size)
     (cfuel : Nat) (hev : CSem2.runC cs cfuel f ρ = some v) :
     ∃ fuel₀, ∀ fuel, fuel₀ ≤ fuel →
       runFunc (prog (Lower2.emitFunc cs startid f)) ext f.name (argsOf f.params ρ) fuel =
         ⟨#[], .ret (.scalar (argOf f.ret v).2)⟩ := by
-  obtain ⟨n, r, hr, h⟩ := lower2_correct cs startid f ρ v ext hwt hin henv hsmall cfuel hev
+  obtain ⟨n, r, hr, h⟩ := lower2_correct cs startid f ρ v ext hwt henv hsmall cfuel hev
   exact ⟨n, fun fuel hf => by rw [h fuel hf, retRep_exact hret hr]⟩
 
-/-- Stated, not proved yet: preservation for ALL well-formed functions of 𝔽₂ (`while`, `do`, `for`
-    with `break`/`continue` included).  Missing: the cases `while_`, `dowhile`, `for_` of
-    `LowerMach2.sim_stmt` (`Lemmas/Lower2Stmt.lean`); everything else (expression simulation over slots,
-    memory invariant, control lemmas `Post.close`/`Post.closeJmp`, `break`/`continue` as pending
-    jumps, the structural facts `funcstmt_good` for all statement kinds incl. the loops, the function
-    wrapper) is proved for the whole of 𝔽₂.  The executable model and its tie to cproc-qbe cover all of
-    𝔽₂ already. -/
-def lower2_correct_full : Prop :=
-  ∀ (cs : Bool) (startid : Nat) (f : CSem2.Func) (ρ : List Int) (v : Int) (ext : Ext),
-    CSem2.WT f → EnvOK cs f.params ρ → f.params.length + f.locals.length ≤ 1000000 →
-    ∀ cfuel, CSem2.runC cs cfuel f ρ = some v →
-    ∃ fuel₀ r, RetRep f.ret v r ∧ ∀ fuel, fuel₀ ≤ fuel →
-      runFunc (prog (Lower2.emitFunc cs startid f)) ext f.name (argsOf f.params ρ) fuel =
-        ⟨#[], .ret (.scalar r)⟩
+/-- Stated, not proved (and not claimed): the emitted module passes the IL validator of C03 for every
+    well-formed function of 𝔽₂, whatever the arguments.  Checked per generated function by
+    `drv_c01 eval` (field `wf=`). -/
+def emit2_wf_full : Prop :=
+  ∀ (cs : Bool) (startid : Nat) (f : CSem2.Func), CSem2.WT f →
+    wf (moduleOf (Lower2.emitFunc cs startid f)) = .ok ()
 
 /-! ## Non-vacuity (𝔽₂) -/
 
@@ -284,9 +275,8 @@ def ex4 : CSem2.Func :=
             (.ret (.cast .int (.param .long 2))))))) }
 
 example : CSem2.WT ex4 := by decide
-example : InF2 ex4 := by decide
 example : CSem2.runC true 20 ex4 [100, 200] = some 603 := by decide
-/-- one statement kind each: declaration without initialiser then read = undefined -/
+/-- declaration without initialiser, then read = undefined -/
 example : CSem2.runC true 20
     { name := "g", ret := .int, params := [], locals := [.int],
       body := .seq (.decl 0 .int none) (.ret (.param .int 0)) } [] = none := by decide
@@ -298,7 +288,6 @@ def ex5 : CSem2.Func :=
       (.seq (.assign 0 .short (.cast .short (.bin .add .int (.cast .int (.param .short 0)) (.const .int 5))))
       (.ret (.cast .uint (.param .short 0))))) }
 example : CSem2.WT ex5 := by decide
-example : InF2 ex5 := by decide
 example : CSem2.runC true 20 ex5 [32767] = some 4294934532 := by decide   -- (short)32772 = -32764
 /-- signed overflow in the initialiser is undefined -/
 example : CSem2.runC true 20 ex4 [2147483647, 1] = none := by decide
@@ -315,7 +304,6 @@ def ex6 : CSem2.Func :=
       (.seq (.incdec 0 .int true)
             (.ret (.bin .add .int (.param .int 0) (.param .int 1)))))) }
 example : CSem2.WT ex6 := by decide
-example : InF2 ex6 := by decide
 example : CSem2.runC true 20 ex6 [7] = some 1 := by decide
 example : CSem2.runC true 20 ex6 [0] = some 3 := by decide
 /-- `x--` on `short` wraps through `int`; on `int` at `INT_MIN` it is undefined -/
@@ -327,26 +315,69 @@ example : CSem2.runC true 20
     { name := "d", ret := .int, params := [.int], locals := [],
       body := .seq (.incdec 0 .int false) (.ret (.param .int 0)) } [-2147483648] = none := by decide
 
-/-- the theorem applied to `ex6` -/
+/-- loops: `int k(int n) { int s = 0; int i; for (i = 0; i < n; i = i + 1) { if (i == 3) continue;
+    if (i > 7) break; s = s + i; } while (n) { n = n - 1; } do { s = s + 1; } while (s < 3); return s; }` -/
+def ex7 : CSem2.Func :=
+  { name := "k", ret := .int, params := [.int], locals := [.int, .int],
+    body :=
+      .seq (.decl 1 .int (some (.const .int 0)))
+      (.seq (.decl 2 .int none)
+      (.seq (.seq (.assign 2 .int (.const .int 0))
+        (.for_ (some (.bin .lt .int (.param .int 2) (.param .int 0)))
+          (.assign 2 .int (.bin .add .int (.param .int 2) (.const .int 1)))
+          (.seq (.ite (.bin .eq .int (.param .int 2) (.const .int 3)) .continue_)
+          (.seq (.ite (.bin .gt .int (.param .int 2) (.const .int 7)) .break_)
+                (.assign 1 .int (.bin .add .int (.param .int 1) (.param .int 2)))))))
+      (.seq (.while_ (.param .int 0) (.assign 0 .int (.bin .sub .int (.param .int 0) (.const .int 1))))
+      (.seq (.dowhile (.assign 1 .int (.bin .add .int (.param .int 1) (.const .int 1)))
+              (.bin .lt .int (.param .int 1) (.const .int 3)))
+            (.ret (.param .int 1)))))) }
+example : CSem2.WT ex7 := by decide
+/-- 0+1+2+4+5+6+7 = 25, `break` at i = 8, then `+1` by the `do` -/
+example : CSem2.runC true 100 ex7 [20] = some 26 := by decide
+example : CSem2.runC true 100 ex7 [0] = some 3 := by decide
+/-- not enough fuel for the C execution: no claim -/
+example : CSem2.runC true 5 ex7 [20] = none := by decide
+/-- `for (;;)` without condition, left by `return` -/
+example : CSem2.runC true 100
+    { name := "w", ret := .int, params := [.int], locals := [],
+      body := .for_ none .skip (.seq (.incdec 0 .int true)
+        (.ite (.bin .gt .int (.param .int 0) (.const .int 9)) (.ret (.param .int 0)))) } [3] = some 10 := by
+  decide
+
+/-- the theorem applied to `ex7` (loops) -/
+example : ∃ fuel₀, ∀ fuel, fuel₀ ≤ fuel →
+    runFunc (prog (Lower2.emitFunc true 0 ex7)) noExt "k" (argsOf ex7.params [20]) fuel =
+      ⟨#[], .ret (.scalar ⟨.w, 26⟩)⟩ := by
+  have hval : (argOf ex7.ret 26).2 = ⟨.w, 26⟩ := by decide
+  rw [← hval]
+  exact lower2_correct_exact true 0 ex7 [20] 26 noExt (by decide)
+    ⟨rfl, by
+      intro i t v ht hv
+      match i, ht, hv with
+      | 0, ht, hv => cases ht; cases hv; decide⟩
+    (by decide) (by decide) 100 (by decide)
+
+/-- the theorem applied to `ex6` (branches) -/
 example : ∃ fuel₀, ∀ fuel, fuel₀ ≤ fuel →
     runFunc (prog (Lower2.emitFunc true 0 ex6)) noExt "g" (argsOf ex6.params [0]) fuel =
       ⟨#[], .ret (.scalar ⟨.w, 3⟩)⟩ := by
   have hval : (argOf ex6.ret 3).2 = ⟨.w, 3⟩ := by decide
   rw [← hval]
-  exact lower2_correct_exact true 0 ex6 [0] 3 noExt (by decide) (by decide)
+  exact lower2_correct_exact true 0 ex6 [0] 3 noExt (by decide)
     ⟨rfl, by
       intro i t v ht hv
       match i, ht, hv with
       | 0, ht, hv => cases ht; cases hv; decide⟩
     (by decide) (by decide) 20 (by decide)
 
-/-- the theorem applied to `ex4` -/
+/-- the theorem applied to `ex4` (straight-line) -/
 example : ∃ fuel₀, ∀ fuel, fuel₀ ≤ fuel →
     runFunc (prog (Lower2.emitFunc true 0 ex4)) noExt "f" (argsOf ex4.params [100, 200]) fuel =
       ⟨#[], .ret (.scalar ⟨.w, 603⟩)⟩ := by
   have hval : (argOf ex4.ret 603).2 = ⟨.w, 603⟩ := by decide
   rw [← hval]
-  exact lower2_correct_exact true 0 ex4 [100, 200] 603 noExt (by decide) (by decide)
+  exact lower2_correct_exact true 0 ex4 [100, 200] 603 noExt (by decide)
     ⟨rfl, by
       intro i t v ht hv
       match i, ht, hv with
